@@ -1,6 +1,7 @@
 import Driver.Common
 import Parsley.Model.Filters
 import Parsley.Spec.Filters
+import Parsley.Spec.DeflateFixed
 /-!
   C06 driver.
 
@@ -11,6 +12,10 @@ import Parsley.Spec.Filters
     mta : rt/sh/mal  <shape>;<chain>;<corr>;<eol>;<payloadhex>      rz  <payloadhex>      fz  -
     chain: layers in decoding order joined by `+` (`-` = none); a layer is
            H.<ws>.<case>.<odd>.<pv> | A.<ws>.<z>.<pv> | F.<mode>.<seed>.<pv> | U.<pv>
+           F modes: 0 stored blocks (partition by seed), 1 one final fixed-Huffman block of literals
+           (FiltersSpec.zlibFixedLiterals), 2 / 3 fixed-Huffman blocks from an LZ77 factorisation chosen by
+           the seed (DeflateFixed.factorise: candidate distances, match cap, length-258 spelling, forced
+           literals, tokens per block), closed by an empty final block (2) or with the last block final (3)
   Only <dictser> and <contenthex> reach the implementation and the model.  The judge rebuilds
   dictionary and content from the recipe with the *spec-side* encoders, checks that they are
   what the case carries, and derives the expected outcome from the recipe alone.
@@ -169,6 +174,24 @@ def Layer.name (l : Layer) : Obj :=
   match l.kind with
   | 'H' => name! "ASCIIHexDecode" | 'A' => name! "ASCII85Decode" | 'F' => name! "FlateDecode" | _ => name! "LZWDecode"
 
+/-- the fixed-Huffman factorisation a seed stands for: greedy matches over a list of candidate
+    distances (all distance symbols with and without extra bits are reachable), capped match length,
+    either spelling of length 258, literals forced at some positions, `k` tokens per block -/
+def fixedBlocks (seed : Nat) (x : Bytes) : List (List DeflateFixed.Tok) :=
+  let caps : Array Nat := #[258, 3, 4, 10, 11, 12, 257, 258]
+  let ks : Array Nat := #[1, 2, 3, 7, 50, 1000, 100000]
+  let pool : List Nat :=
+    [6, 8, 9, 12, 13, 16, 17, 24, 25, 32, 33, 49, 64, 65, 96, 97, 100, 128, 129, 192, 193, 255,
+     256, 257, 258, 384, 385, 512, 513, 768, 769, 1000, 1024, 1025, 1536, 1537, 2048, 2049, 3072, 3073, 4096, 4097,
+     6144, 6145, 8192, 8193, 12288, 12289, 16384, 16385, 24576, 32767]
+  -- the periods of the generated payloads always, a rotating quarter of the pool besides
+  let cands : List Nat := [1, 2, 3, 4, 5, 7, 48, 300, 5000, 24577, 32768] ++
+    ((pool.zip (List.range pool.length)).filter fun (_, i) => (i + seed) % 4 == 0).map (·.1)
+  let cands := if seed % 4 == 3 then cands.reverse else cands
+  let toks := DeflateFixed.factorise cands (caps[seed % 8]?.getD 258) (seed % 2 == 1)
+    (fun i => seed % 3 == 0 && (i * 7 + seed) % 5 == 0) x
+  DeflateFixed.chunk (ks[seed % 7]?.getD 50) toks
+
 /-- spec-side encoding of one layer -/
 def Layer.encode (l : Layer) (x : Bytes) : Bytes :=
   match l.kind with
@@ -180,6 +203,10 @@ def Layer.encode (l : Layer) (x : Bytes) : Bytes :=
     sprinkle l.a (FiltersSpec.encodeA85 useZ x)
   | 'F' =>
     if l.a == 1 then FiltersSpec.zlibFixedLiterals x
+    else if l.a == 2 then DeflateFixed.zlibFixed (fixedBlocks l.b x) x
+    else if l.a == 3 then
+      let bs := fixedBlocks l.b x
+      DeflateFixed.zlibFixedF bs.dropLast (bs.getLast?.getD []) x
     else
       let sizes : List Nat :=
         if l.b == 0 then [] else
@@ -231,20 +258,32 @@ def Recipe.parse (s : String) : Option Recipe :=
     | _, _, _, _, _ => none
   | _ => none
 
-/-- the content: layers applied innermost first; the corruption hits the output of its layer -/
-def Recipe.content (r : Recipe) : Bytes :=
-  let rec go (ls : List Layer) (idx : Nat) : Bytes :=
+/-- the content (layers applied innermost first; the corruption hits the output of its layer), and
+    whether every fixed-Huffman layer of the recipe is written from a VALID factorisation of its
+    input (the hypothesis of `inflate_fixed_roundtrip_final`), checked with the specification's
+    `resolveBlocksA` (= `resolveBlocks`, theorem `resolveBlocksA_eq`) -/
+def Recipe.build (r : Recipe) : Bytes × Bool :=
+  let rec go (ls : List Layer) (idx : Nat) : Bytes × Bool :=
     match ls with
-    | [] => r.payload
+    | [] => (r.payload, true)
     | l :: rest =>
-      let inner := go rest (idx + 1)
-      let e := l.encode inner
-      if idx == r.corrL then corrupt l r.corrOp r.corrArg e else e
-  go r.chain 1 ++ (if r.chain.isEmpty then [] else eolBytes r.eol)
+      let (inner, ok) := go rest (idx + 1)
+      if l.kind == 'F' && (l.a == 2 || l.a == 3) then
+        let bs := fixedBlocks l.b inner
+        let ok := ok && ((DeflateFixed.resolveBlocksA bs #[]).map Array.toList == some inner)
+        let e := if l.a == 2 then DeflateFixed.zlibFixed bs inner
+                 else DeflateFixed.zlibFixedF bs.dropLast (bs.getLast?.getD []) inner
+        (if idx == r.corrL then corrupt l r.corrOp r.corrArg e else e, ok)
+      else
+        let e := l.encode inner
+        (if idx == r.corrL then corrupt l r.corrOp r.corrArg e else e, ok)
+  let (c, ok) := go r.chain 1
+  (c ++ (if r.chain.isEmpty then [] else eolBytes r.eol), ok)
+
+def Recipe.content (r : Recipe) : Bytes := r.build.1
 
 /-- entries that are not filter-related: what must survive the pruning -/
-def Recipe.extras (r : Recipe) : Dict :=
-  let len := r.content.length
+def Recipe.extrasL (r : Recipe) (len : Nat) : Dict :=
   match r.shape % 3 with
   | 0 => [(strBytes "Length", .int len)]
   | 1 => [(strBytes "Length", .int len), (strBytes "Subtype", name! "Image"), (strBytes "Type", name! "XObject")]
@@ -279,8 +318,8 @@ def Recipe.filterEntries (r : Recipe) : Dict :=
   | 11 => [(P, .dict []), (F, .arr names)]                -- LENIENT: array of filters, one dictionary
   | _ => [(F, .arr names)]
 
-def Recipe.dict (r : Recipe) : Dict :=
-  (r.filterEntries ++ r.extras).foldl (fun d (k, v) => insertKey k v d) []
+def Recipe.dictL (r : Recipe) (len : Nat) : Dict :=
+  (r.filterEntries ++ r.extrasL len).foldl (fun d (k, v) => insertKey k v d) []
 
 inductive Expect where
   | okPayload | errGuard | errTransform | okOrGuard
@@ -301,7 +340,8 @@ def Recipe.expect (r : Recipe) : Expect :=
   else .okPayload
 
 def caseOf (kind : String) (r : Recipe) : String :=
-  s!"{kind} {r.mta} {showDict r.dict} {hexOfBytes r.content}"
+  let c := r.content
+  s!"{kind} {r.mta} {showDict (r.dictL c.length)} {hexOfBytes c}"
 
 /-! ### the oracle -/
 
@@ -336,15 +376,18 @@ def judge (case impl : String) : String :=
       | none => "bad-case"
       | some r =>
         -- the case must carry exactly what the recipe denotes
-        if showDict r.dict != ds || hexOfBytes r.content != hex then "bad-case recipe and data differ" else
-        let okLine := s!"ok {hexOfBytes r.payload} {showDict (r.extras.foldl (fun d (k, v) => insertKey k v d) [])}"
+        let (content, factOk) := r.build
+        let extras := r.extrasL content.length
+        if showDict (r.dictL content.length) != ds || hexOfBytes content != hex then "bad-case recipe and data differ" else
+        if !factOk then "bad-case invalid factorisation" else
+        let okLine := s!"ok {hexOfBytes r.payload} {showDict (extras.foldl (fun d (k, v) => insertKey k v d) [])}"
         match r.expect with
         | .okPayload =>
           if impl == okLine then "ok"
           else if iw.head? == some "ok" then
             match iw with
             | [_, got, gd] =>
-              if gd != showDict (r.extras.foldl (fun d (k, v) => insertKey k v d) []) then "bad dict pruned dictionary differs"
+              if gd != showDict (extras.foldl (fun d (k, v) => insertKey k v d) []) then "bad dict pruned dictionary differs"
               else match bytesOfHex got with
                 | some g => if g.length < r.payload.length && g == r.payload.take g.length
                             then s!"bad truncated {g.length} of {r.payload.length} bytes reported as success"
@@ -374,9 +417,10 @@ def randLayer (r : Rng) (allowU : Bool) : Layer × Rng :=
   let (a, r) := r.nat 50
   let (b, r) := r.nat 3
   let (c, r) := r.nat 2
+  let (m, r) := r.nat 4
   if k < 3 then (⟨'H', a, b, c, 0⟩, r)
   else if k < 6 then (⟨'A', a, b, 0, 0⟩, r)
-  else if k < 9 then (⟨'F', c, a, 0, 0⟩, r)
+  else if k < 9 then (⟨'F', m, a, 0, 0⟩, r)
   else (⟨'U', 0, 0, 0, 0⟩, r)
 
 def randChain (r : Rng) (len : Nat) (allowU : Bool) : List Layer × Rng :=
@@ -390,7 +434,8 @@ def randChain (r : Rng) (len : Nat) (allowU : Bool) : List Layer × Rng :=
 def gen (seed n : Nat) (tier : String) (emit : String → IO Unit) : IO Unit := do
   let thorough := tier == "thorough"
   -- 1. exhaustive small: every chain of length ≤ 2 (3 in thorough) over {H,A,F} x boundary payload lengths x shapes
-  let kinds : List Layer := [⟨'H', 3, 2, 1, 0⟩, ⟨'A', 5, 2, 0, 0⟩, ⟨'F', 0, 3, 0, 0⟩, ⟨'F', 1, 0, 0, 0⟩]
+  let kinds : List Layer := [⟨'H', 3, 2, 1, 0⟩, ⟨'A', 5, 2, 0, 0⟩, ⟨'F', 0, 3, 0, 0⟩, ⟨'F', 1, 0, 0, 0⟩,
+                             ⟨'F', 2, 9, 0, 0⟩, ⟨'F', 3, 4, 0, 0⟩]
   let chains1 := kinds.map fun k => [k]
   let chains2 := kinds.flatMap fun k => kinds.map fun k2 => [k, k2]
   let chains3 := if thorough then chains2.flatMap fun c => kinds.map fun k => k :: c else
@@ -433,14 +478,14 @@ def gen (seed n : Nat) (tier : String) (emit : String → IO Unit) : IO Unit := 
         let (outer, r5) := randChain r4 (variant % 3) false
         let (inner, r6) := randChain r5 (variant % 2) false
         r := r6
-        let l : Layer := ⟨k, if k == 'F' then variant % 2 else a, variant % 3, 0, 0⟩
+        let l : Layer := ⟨k, if k == 'F' then variant % 4 else a, if k == 'F' then variant else variant % 3, 0, 0⟩
         emit (caseOf "mal" { shape := 3 + variant % 3, chain := outer ++ [l] ++ inner, corrL := outer.length + 1,
                              corrOp := op, corrArg := arg, payload := p })
   -- 4. larger payloads (the 32 KiB boundary of the old Flate glue; stored blocks of 65535)
   let big : List Nat := if thorough then [32767, 32768, 32769, 65535, 65536, 100000, 200000, 1048576, 3000000]
                         else [32767, 32768, 32769, 65535, 65536, 100000]
   for sz in big do
-    for ch in [[kinds[2]!], [⟨'F', 0, 0, 0, 0⟩], [kinds[3]!]] do
+    for ch in [[kinds[2]!], [⟨'F', 0, 0, 0, 0⟩], [kinds[3]!], [⟨'F', 2, sz % 50, 0, 0⟩], [⟨'F', 3, sz % 47, 0, 0⟩]] do
       if sz ≤ 200000 || ch.head!.a == 0 then
         let (p, r1) := mkPayload r sz sz
         r := r1
@@ -450,6 +495,16 @@ def gen (seed n : Nat) (tier : String) (emit : String → IO Unit) : IO Unit := 
       let (p, r1) := mkPayload r sz (sz / 20000 + ch.length)
       r := r1
       emit (caseOf "rt" { shape := 6, chain := ch, eol := 2, payload := p })
+  -- 4b. fixed-Huffman factorisations: every seed class x self-similar payloads (a random block of L bytes
+  --     written three and a half times: copies at distance L, all distance symbols up to 32768, overlapping copies for
+  --     runs, both spellings of length 258, forced literals, 1..100000 tokens per block)
+  for fs in List.range (if thorough then 168 else 56) do
+    for L in (if thorough then [1, 2, 5, 48, 300, 5000, 24577, 32768] else [1, 5, 48, 300, 5000, 32768]) do
+      if L ≤ 5000 || fs % 8 == 0 then
+        let (blk, r1) := Rng.bytes L r
+        r := r1
+        let p := blk ++ blk ++ blk ++ blk.take (L / 2 + 1)
+        emit (caseOf "rt" { shape := 3 + fs % 3, chain := [⟨'F', 2 + fs % 2, fs, 0, 0⟩], eol := fs % 4, payload := p })
   -- 5. random recipes
   for _ in List.range n do
     let (clen, r1) := r.nat 4
